@@ -577,20 +577,42 @@ func (e *Enc) signalResult(v ssa.Value) bool {
 				return false
 			}
 			res := callee.Signature.Results()
-			hasPtr := false
+			hasPtr, hasIface, discarded := false, false, false
 			for i := 0; i < res.Len(); i++ {
 				t := res.At(i).Type()
 				if types.Identical(t, types.Universe.Lookup("error").Type()) {
-					return false
+					// an error result that the caller throws away (`v, _ := f()`) leaves nil as the only signal
+					used := false
+					if refs := x.Referrers(); refs != nil {
+						for _, r := range *refs {
+							if ex, ok := r.(*ssa.Extract); ok && ex.Index == i {
+								if er := ex.Referrers(); er != nil {
+									for _, u := range *er {
+										if _, dbg := u.(*ssa.DebugRef); !dbg {
+											used = true
+										}
+									}
+								}
+							}
+						}
+					}
+					if used {
+						return false
+					}
+					discarded = true
+					continue
 				}
 				if b, ok := t.Underlying().(*types.Basic); ok && b.Kind() == types.Bool {
 					return false
 				}
-				if _, ok := t.Underlying().(*types.Pointer); ok {
+				switch t.Underlying().(type) {
+				case *types.Pointer:
 					hasPtr = true
+				case *types.Interface:
+					hasIface = true
 				}
 			}
-			return hasPtr
+			return hasPtr || (discarded && hasIface)
 		default:
 			return false
 		}
